@@ -74,6 +74,8 @@ type interpreter struct {
 	trace   bool
 	race    *raceState // happens-before monitor (scheduler mode, vx.RaceMonitor)
 	onEnter func(fr *frame)
+	reentryLimit   int64
+	reentryLimitID string
 	onLeave func(fr *frame)
 	monitor *reentryMonitor
 	frozen  map[*value]string
